@@ -49,6 +49,7 @@ type Model struct {
 	validateFn *ssa.Function
 	storeReach map[*ssa.Function]bool
 	ownershipExtras map[*ssa.Function][]string
+	fieldTaint map[string]bool
 	la      *LockAnalysis
 
 	problems []string
